@@ -994,12 +994,17 @@ class UTPM(Ring, RawAlgorithmsMixIn):
         else:
             xbar, = out
 
-        xbar.data.real = ybar.data
+        if not numpy.shares_memory(xbar.data, ybar.data):
+            # (for complex x the result is a view of x, its adjoint a view of xbar: the
+            # contributions have then arrived in xbar already)
+            xbar.data.real += ybar.data
 
     @classmethod
     def imag(cls, x):
         """ UTPM equivalent to numpy.imag """
-        return cls(x.data.imag)
+        # a copy: the adjoint of the result enters the adjoint of x with a minus sign and
+        # must therefore not share memory with it
+        return cls(x.data.imag.copy())
 
     @classmethod
     def pb_imag(cls, ybar, x, y, out=None):
@@ -1009,7 +1014,8 @@ class UTPM(Ring, RawAlgorithmsMixIn):
 
         else:
             xbar, = out
-        xbar.data.imag = -ybar.data
+        if numpy.iscomplexobj(xbar.data):
+            xbar.data.imag -= ybar.data
 
 
     @classmethod
